@@ -3,7 +3,7 @@ import TexelVerif.Drv.Util
 /-! Trace acceptor for the protocol model (properties C10 / C09).
 
     Line protocol (`proto …`):
-      `proto reset`                                   → `ok`
+      `proto reset` | `proto reset strict`            → `ok`   (strict: also check `exitQuiet`, property C09)
       `proto ev <seq> <tid> <self> <KIND> <a> <b> <c> <d>` → `ok` | `reject <why>` | `skip` (after a reject)
       `proto end`                                     → `ok go=<g> bm=<b> …` | `reject <why>`
     Each hook event is translated to the model event(s) it stands for and replayed through
@@ -20,6 +20,8 @@ structure PState where
   haveRoot : Bool := false
   slots : List (Int × Fin N) := [(0, ⟨0, by decide⟩)]   -- communicator id ↦ slot (the root communicator is created first: id 0)
   dead : Bool := false
+  lastRootDeq : Int × Int := (-1, -1)        -- type and job id of the command the engine thread dequeued last
+  strict : Bool := false                    -- also check `exitQuiet` of Conc/Access.lean at every thread termination (C09)
   count : Nat := 0
 
 instance : Inhabited PState := ⟨{}⟩
@@ -101,6 +103,10 @@ def onEvent (ps : PState) (self : Int) (kind : String) (a b c d : Int) : R := do
       let v ← needSlot ps a
       -- the quit path leaves the loop by itself (`hasQuitAck`); otherwise the thread was terminated by ~WorkerThread
       if s.pc v == .done then .ok ps else
+      let quiet := match s.parent v with
+        | some p => p == ps.root || s.pc p == .wait || s.pc p == .done
+        | none => true
+      if ps.strict && !quiet then .error s!"exit-not-quiet: helper {a} is destroyed while its parent's thread is running (parent pc {match s.parent v with | some p => showPc (s.pc p) | none => "-"})" else
       let ps1 ← doStep ps (.exit v) s!"exit {a} (pc {showPc (s.pc v)}, terminate {b})"
       .ok { ps1 with slots := ps1.slots.filter (fun p => p.1 != a) }
   | "WAIT_RET" =>
@@ -130,7 +136,8 @@ def onEvent (ps : PState) (self : Int) (kind : String) (a b c d : Int) : R := do
       | h :: rest =>
         if !(matchCmd h b c) then .error s!"DEQ {a} {b}/{c}: model queue head is {showCmd h}" else
         if rest.length != d.toNat then .error s!"DEQ {a} {b}/{c}: {d} commands remain but model has {rest.length}" else
-        doStep ps (.deq v) s!"DEQ {a} {b}/{c} (pc {showPc (s.pc v)})"
+        let ps0 := if v == ps.root then { ps with lastRootDeq := (b, c) } else ps
+        doStep ps0 (.deq v) s!"DEQ {a} {b}/{c} (pc {showPc (s.pc v)})"
   | "POLL_EMPTY" =>
       let v ← needSlot ps a
       doStep ps (.pollEmpty v) s!"POLL_EMPTY {a} (pc {showPc (s.pc v)}, queue {(s.q v).length}, pending {(s.out v).length})"
@@ -182,6 +189,11 @@ def onEvent (ps : PState) (self : Int) (kind : String) (a b c d : Int) : R := do
       check ps ((s.out v).isEmpty) s!"RESULT_DROP {a} {b}: the model forwards this result"
   | "RESULT_TAKE" =>
       check ps (s.pc ps.root == .esearch && s.ejob == b.toNat && b == c) s!"RESULT_TAKE {b}: model job {s.ejob}, pc {showPc (s.pc ps.root)}"
+  | "RESULT_USED" =>
+      -- Search::negaScoutRoot caught HelperThreadResult: the result actually consumed must be the REPORT_RESULT just
+      -- dequeued, and it must carry the current job id
+      check ps (s.pc ps.root == .esearch && ps.lastRootDeq == (6, a) && s.ejob == a.toNat && a ≥ 0)
+        s!"a helper result was consumed for job {a} but the last command dequeued by the engine thread was {ps.lastRootDeq.1}/{ps.lastRootDeq.2} and the model's job is {s.ejob}"
   | "SEARCH_ENTER" =>
       let v ← needSlot ps a
       check ps (s.pc v == .search b.toNat) s!"SEARCH_ENTER {a} {b}: model pc {showPc (s.pc v)}"
@@ -242,6 +254,7 @@ def finalCheck (ps : PState) : Except String String :=
 def step (ps : PState) (args : List String) : PState × String :=
   match args with
   | ["reset"] => ({}, "ok")
+  | ["reset", "strict"] => ({ strict := true }, "ok")
   | ["end"] =>
       if ps.dead then (ps, "skip") else
       match finalCheck ps with
